@@ -343,7 +343,14 @@ impl<'a> Parser<'a> {
     fn projection_rhs(&mut self, lbp: usize) -> ParseResult {
         if match self.peek(0) {
             &Token::Dot => true,
-            &Token::Lbracket | &Token::Filter => false,
+            &Token::Filter => false,
+            // A bracket that continues a projection is an index, a slice or
+            // "[*]"; a multi-select list needs a preceding dot.
+            &Token::Lbracket => match self.peek(1) {
+                &Token::Number(_) | &Token::Colon => false,
+                &Token::Star if self.peek(2) == &Token::Rbracket => false,
+                t => return Err(self.err(t, "Expected number, ':', or '*]'", true)),
+            },
             t if t.lbp() < PROJECTION_STOP => {
                 return Ok(Ast::Identity {
                     offset: self.offset,
